@@ -1698,7 +1698,18 @@ def _b_range(self, args, kwargs, node):
     raise Unsupported('range() with symbolic bound outside a for loop / sum comprehension')
 
 
+def _b_getattr(self, args, kwargs, node):
+    """getattr(symbolic object, 'constant name', default): an attribute the contract view does not know is an arbitrary value of
+    the default's type that depends only on the object (uninterpreted function of the object)."""
+    if len(args) == 3 and isinstance(args[1], str) and isinstance(args[0], SV) and isinstance(args[2], (bool, int, float)):
+        srt = z3.BoolSort() if isinstance(args[2], bool) else z3.IntSort() if isinstance(args[2], int) else z3.RealSort()
+        kind = 'bool' if isinstance(args[2], bool) else 'int' if isinstance(args[2], int) else 'real'
+        return SV(kind, z3.Function(f'attr_{args[1]}', args[0].t.sort(), srt)(args[0].t))
+    raise Unsupported(f'getattr with symbolic arguments (line {node.lineno})')
+
+
 _SYM_BUILTINS = {
+    builtins.getattr: _b_getattr,
     builtins.sum: _b_sum, builtins.min: _minmax(True), builtins.max: _minmax(False),
     builtins.float: _b_float, builtins.int: _b_int, builtins.str: _b_str, builtins.bool: _b_bool,
     builtins.len: _b_len, builtins.round: _b_round, math.ceil: _b_ceil, builtins.abs: _b_abs,
